@@ -14,3 +14,12 @@ open RawPanelVerif.C03
 #print axioms encOut_sound_full_approx
 #print axioms encOut_sound
 #print axioms encOut_sound_approx
+#print axioms msg_line_verbatim
+#print axioms errormsg_line_verbatim
+#print axioms profile_lines_verbatim
+#print axioms topology_lines_verbatim
+#print axioms payload_exact_noLF
+#print axioms cbinding_lines
+#print axioms encOut_no_nul
+#print axioms cbinding_nul_truncates_counterexample
+#print axioms caps_table_tie
